@@ -212,6 +212,34 @@ pub fn judge(c: &Case, st: &mut Stats) -> Verdict {
             }
         }
     }
+    // a sink that panics in the middle of the line (a logger with a bug; the caller catches the panic and carries on): no
+    // trace is left - this value and its neighbour format to their lines afterwards
+    if c.digest() % 4 == 0 {
+        use std::fmt::Write as _;
+        struct Bomb {
+            left: usize,
+        }
+        impl std::fmt::Write for Bomb {
+            fn write_str(&mut self, x: &str) -> std::fmt::Result {
+                if x.len() > self.left {
+                    panic!("sink gave up");
+                }
+                self.left -= x.len();
+                Ok(())
+            }
+        }
+        for room in [0usize, s.len() / 2, s.len() - 1] {
+            let mut sink = Bomb { left: room };
+            let _ = crate::engine::guard(std::panic::AssertUnwindSafe(|| write!(sink, "{}", lib)));
+            for _ in 0..2 {
+                match crate::engine::guard(|| lib.to_string()) {
+                    Ok(again) if again == s => {}
+                    Ok(again) => return fail("format-after-panicking-sink", format!("the same line {:?}", s), format!("{:?}", again)),
+                    Err(p) => return fail("format-panics", "a line (an earlier sink had panicked)".into(), format!("panic: {}", p)),
+                }
+            }
+        }
+    }
     // a sink that is itself a formatter of such values (a logging writer that tags every chunk it is handed with the line of
     // its own connection): the outer value and the inner one both come out as their lines
     {
